@@ -23,9 +23,10 @@ def shapes():
     for op in ("read", "write"):
         for sk_ in (None, [3, 0x1234]):
             for nbytes in (4, 20):
-                for intr in ("other_sa", "own_sa_other_ptr"):
-                    for copies in (1, 3):
-                        out.append({"op": op, "seed_key": sk_, "nbytes": nbytes, "intruder": intr, "copies": copies})
+                for intr in ("other_sa", "other_sa_other_ptr", "own_sa_other_ptr"):
+                    for icmd in ("read", "write"):
+                        for copies in (1, 3):
+                            out.append({"op": op, "seed_key": sk_, "nbytes": nbytes, "intruder": intr, "copies": copies, "icmd": icmd})
     return out
 
 
@@ -35,8 +36,8 @@ class C19:
     TECHNIQUE = ("fault enumeration in virtual time: an intruding request injected after every bus frame of every transaction "
                  "shape, differential oracle against the undisturbed run; payloads, seeds and latencies drawn by Hypothesis")
     RULE = ("a case is (transaction shape, intruder kind, copies, draw): shapes = read/write x seed-key on/off x 4 / 20 data bytes; "
-            "intruder = DM14 read request from another source address, or from the running requester's address with another "
-            "pointer, injected once or three times; inside a case the undisturbed run gives N bus frames and then one run per "
+            "intruder = DM14 read or write request from another source address (same or another pointer), or from the running "
+            "requester's address with another pointer, injected once or three times; inside a case the undisturbed run gives N bus frames and then one run per "
             "k in 1..N-1 injects the intruder right after frame k ('subruns'); non-trivial = a run in which the server answered "
             "the intruder; distinct = distinct (shape, k); exhaustive over k per shape")
     ASSUMPTIONS = [
@@ -56,7 +57,7 @@ class C19:
                          st.sampled_from([[1, 1], [255, 255], [2, 1]]))
 
     def examples(self, tier):
-        return 32 if tier == "quick" else 1000
+        return 48 if tier == "quick" else 2000
 
     def enumerate(self, tier):
         return [dict(sh, data_seed=7 + i, seeds=[0xA55A], lat={"C": [0.0005], "S": [0.0005]}, max_cmdt=[1, 1]) for i, sh in enumerate(shapes())]
@@ -74,9 +75,12 @@ class C19:
         if k is not None:
             if p["intruder"] == "other_sa":
                 sa, ptr = D.SA_I, ADDR
+            elif p["intruder"] == "other_sa_other_ptr":
+                sa, ptr = D.SA_I, OTHER_PTR
             else:
                 sa, ptr = D.SA_C, OTHER_PTR
-            data = [count, (1 << 4) + (1 << 1) + 1] + list(ptr.to_bytes(4, "little")) + [0x07, 0x00]
+            cmd = 2 if p.get("icmd") == "write" else 1
+            data = [count, (1 << 4) + (cmd << 1) + 1] + list(ptr.to_bytes(4, "little")) + [0x07, 0x00]
             fr = simbus.mkframe(R.mk_id(6, 0, 0xD9, D.SA_S, sa), data)
             inject = [{"after_k": k, "node": "I", "frame": fr} for _ in range(p["copies"])]
         pp = {"seed_key": p["seed_key"], "seeds": p["seeds"], "lat": dict(p["lat"], I=[1e-6]), "max_cmdt": p["max_cmdt"]}
@@ -137,10 +141,10 @@ class C19:
             V = mkV(k)
             for k2, detail, tt in obs["live"]:
                 V("liveness-" + k2, "%s %r" % (k2, detail))
-            sa_i = D.SA_I if p["intruder"] == "other_sa" else D.SA_C
+            sa_i = D.SA_I if p["intruder"].startswith("other_sa") else D.SA_C
             # frames addressed to the intruder
             to_i = [e for e in obs["log"] if e.node == "S" and ((e.can_id >> 8) & 0xFF) == D.SA_I]
-            if p["intruder"] == "other_sa":
+            if p["intruder"].startswith("other_sa"):
                 for e in to_i:
                     pf = (e.can_id >> 16) & 0xFF
                     status = (e.data[1] >> 1) & 7 if len(e.data) >= 2 else None
